@@ -39,4 +39,19 @@ CLAIMS["C20"] = {
     "design_ref": "DESIGN.md §3 C20",
 }
 
+CLAIMS["C08"] = {
+    "technique": "rapid-drawn schedules over yield-instrumented source (controlled scheduler), quiescence invariant",
+    "engine": "sched",
+    "text": "The harness owns the schedule: tools/instrument inserts a yield before every lock/unlock/channel/select operation of the working-tree packetio/buffer.go and deadline/deadline.go (supplied via -overlay), reader/writer/closer/deadline tasks are serialised by harness/sched, and rapid draws which task advances (four strategies incl. 'hold tasks before a blocking operation'). At true quiescence (every task finished or seen parked in a runtime blocking state) the oracle demands: no reader parked while Count()>0, none after Close, none under a passed deadline; reads+buffered==writes; drain to EOF. Exploration of drawn schedules, not exhaustive.",
+    "note": "Trusted: goroutine wait states reported by runtime.Stack; yield granularity = synchronisation operations of the two files; the runtime's choice among ready select cases is not controlled. Future read deadlines (real timers) are exercised in C10, not here.",
+    "design_ref": "DESIGN.md §2.3, §3 C08",
+}
+CLAIMS["C09"] = {
+    "technique": "rapid-generated Set/advance/callback histories on a virtual clock with fake timers (dispatched-but-not-run callbacks), invariant after every step",
+    "engine": "vclock",
+    "text": "time.Until/time.AfterFunc of the working-tree deadline package are redirected (source-to-source, via -overlay) to a virtual clock whose fake timers follow the Stop/Reset contract; a due timer becomes 'dispatched' and its callback is run by the harness later, in any order, with several outstanding. After every step of up to 40-step histories: signalled only if the latest Set time is non-zero and passed; exact agreement when no callback is outstanding; fresh Done channel after expiry; Deadline() == latest Set. Exploration only.",
+    "note": "Trusted: the fake timer's fidelity to time.AfterFunc semantics (Stop/Reset return false once the callback goroutine has been started). Real-timer behaviour is exercised by C10.",
+    "design_ref": "DESIGN.md §2.4, §3 C09",
+}
+
 PENDING_REASON = "check not built yet in this revision of /verif (planned, see DESIGN.md §3); nothing is claimed for it"
